@@ -31,6 +31,19 @@ func validateServerSRTP(
 	return nil
 }
 
+// finalServerALPN returns the protocol announced by the ServerHello as it is
+// sent, i.e. after the ServerHello hook. The server adopts it, so that both
+// sides report the same protocol whatever the hook did.
+func finalServerALPN(responses []extension.Value) string {
+	for _, value := range responses {
+		if selection, ok := value.(*extension.ALPNSelection); ok && selection != nil {
+			return selection.Protocol
+		}
+	}
+
+	return ""
+}
+
 func appendSRTPSelection(
 	extensions []extension.Value,
 	decision negotiation.SRTPDecision,
